@@ -117,3 +117,23 @@ def reset_pickle_bindings():
     import pickle
 
     pickle.load, pickle.loads, _pickle.load, _pickle.loads = env.PICKLE_ORIG
+
+
+RESOLVED = []  # (module, attribute) resolutions observed on sentinel modules
+
+
+class SentinelModule(type(sys)):
+    """an already-loaded module whose every attribute lookup is recorded: makes *resolution* of a
+    name on a loaded module observable (audit hooks do not report getattr)"""
+
+    def __getattr__(self, name):
+        if name.startswith("__") and name.endswith("__"):
+            raise AttributeError(name)
+        RESOLVED.append((self.__name__, name))
+        raise AttributeError(name)
+
+
+def install_sentinels(names):
+    for n in names:
+        if n not in sys.modules or not isinstance(sys.modules[n], SentinelModule):
+            sys.modules[n] = SentinelModule(n)
